@@ -26,7 +26,7 @@ CONSTANTS
     FixedPorts,   \* ports the application may bind explicitly
     EphLo, EphHi, \* Builder::ephemeral_ports range (EphLo > every fixed port)
     Groups,       \* multicast groups
-    Lens,         \* payload lengths (>= 2)
+    Lens,         \* payload lengths (0, or >= 2)
     Bufs,         \* receive buffer lengths (>= 1)
     BindKinds,    \* subset of {"any", "lo"}
     DstPorts,     \* ports that sends and connect() may address
@@ -229,9 +229,19 @@ DstOk(dst) ==
        \/ dst.k = "bcast" /\ "bcast" \in DstKinds /\ dst.h = 0 /\ dst.g = 0
        \/ dst.k = "mc" /\ "mc" \in DstKinds /\ dst.h = 0 /\ dst.g \in Groups
 
+\* A zero-length datagram cannot carry an id.  So that the drivers can tell which
+\* one a link holds / a host is handed (by its source port), the alphabet keeps at
+\* most one zero-length datagram per source port in flight (any host).  Several may
+\* still wait in one receive queue.
+ZeroFree(q) ==
+    /\ \A c \in net : ~(sends[c[1]].len = 0 /\ sends[c[1]].o.p = q)
+    /\ \A t \in Hosts : \A i \in 1..Len(lob[t]) :
+           ~(sends[lob[t][i][1]].len = 0 /\ sends[lob[t][i][1]].o.p = q)
+
 Send(h, p, dst, len) ==
     /\ "send" \in Ops /\ HostMay(h) /\ Bound(h, p) /\ Len(sends) < MaxSend
     /\ DstOk(dst) /\ len \in Lens
+    /\ (len = 0 => ZeroFree(p))
     /\ LET r  == Route(h, p, dst)
            id == Len(sends) + 1
        IN
@@ -359,9 +369,11 @@ RecvKind(h, p, buf) ==
     LET b == bd[h][p] IN
     IF b.rxb # <<>> THEN "buffered"
     ELSE IF b.q = <<>> THEN "empty"
+    ELSE IF sends[Head(b.q)].len = 0 THEN "zero"
     ELSE IF buf < sends[Head(b.q)].len THEN "cut" ELSE "whole"
 RecvWhole(h, p, buf)    == Bound(h, p) /\ RecvKind(h, p, buf) = "whole"    /\ Recv(h, p, buf)
 RecvCut(h, p, buf)      == Bound(h, p) /\ RecvKind(h, p, buf) = "cut"      /\ Recv(h, p, buf)
+RecvZero(h, p, buf)     == Bound(h, p) /\ RecvKind(h, p, buf) = "zero"     /\ Recv(h, p, buf)
 RecvBuffered(h, p, buf) == Bound(h, p) /\ RecvKind(h, p, buf) = "buffered" /\ Recv(h, p, buf)
 \* (an empty receive that leaves every variable unchanged is a stuttering step:
 \* skipped in the exhaustive check, kept in replayable behaviours)
@@ -412,6 +424,7 @@ Next ==
     \/ \E h \in Hosts : LoDeliverSilent(h)
     \/ \E h \in Hosts, p \in Ports, buf \in Bufs : RecvWhole(h, p, buf)
     \/ \E h \in Hosts, p \in Ports, buf \in Bufs : RecvCut(h, p, buf)
+    \/ \E h \in Hosts, p \in Ports, buf \in Bufs : RecvZero(h, p, buf)
     \/ \E h \in Hosts, p \in Ports, buf \in Bufs : RecvBuffered(h, p, buf)
     \/ \E h \in Hosts, p \in Ports, buf \in Bufs : RecvEmpty(h, p, buf)
     \/ \E h \in Hosts, p \in Ports : ReadableOk(h, p)
@@ -437,11 +450,22 @@ TypeOK ==
 GroupsMatch ==
     grp = UNION {{<<g, socks[s].p, socks[s].h>> : g \in socks[s].grp} : s \in Live}
 \* what is queued at a socket is what the statement requires to be there,
-\* plus at most what it leaves open
+\* plus at most what it leaves open.  Zero-length datagrams from one origin are
+\* interchangeable (the PropSpec discharges them by count), so they are
+\* compared by count per origin.
+QSeq(b) == b.rxb \o b.q
+ZCount(S, o) == Cardinality({id \in S : sends[id].len = 0 /\ AddrEq(sends[id].o, o)})
+ZQCount(b, o) == Cardinality({i \in 1..Len(QSeq(b)) :
+                     sends[QSeq(b)[i]].len = 0 /\ AddrEq(sends[QSeq(b)[i]].o, o)})
+NZ(S) == {id \in S : sends[id].len # 0}
 QueueMatches ==
     \A s \in Live :
         LET b == bd[socks[s].h][socks[s].p] IN
-        /\ pm[s] \subseteq QIds(b) /\ QIds(b) \subseteq (pm[s] \cup py[s])
+        /\ NZ(pm[s]) \subseteq NZ(QIds(b)) /\ NZ(QIds(b)) \subseteq NZ(pm[s] \cup py[s])
+        /\ \A id \in (QIds(b) \cup pm[s] \cup py[s]) \ NZ(QIds(b) \cup pm[s] \cup py[s]) :
+               LET o == sends[id].o IN
+               /\ ZCount(pm[s], o) <= ZQCount(b, o)
+               /\ ZQCount(b, o) <= ZCount(pm[s] \cup py[s], o)
         /\ rbuf[s] = (b.rxb # <<>>)
 \* every required copy is in flight or has arrived (nothing is lost on the way)
 NothingLost ==
